@@ -296,6 +296,8 @@ def run(ctx: Ctx) -> None:
     tableau.rule_fresh_storage(ctx)
     from .c11 import rule_inverse_blocks
     rule_inverse_blocks(ctx)
+    from .c17 import rule_metric_value
+    rule_metric_value(ctx)  # Infidelity.evaluate: 1 - F, and the representation literals of its dispatch
     from ..rules import memo as _memo
     _memo.rule_memo_sound(ctx, ['graphiq/backends/stabilizer/functions/metric.py', 'graphiq/backends/stabilizer/functions/stabilizer.py', 'graphiq/backends/stabilizer/tableau.py', 'graphiq/backends/stabilizer/clifford_tableau.py'])
     _memo.rule_falsy_zero(ctx, ['graphiq/backends/stabilizer/functions/metric.py', 'graphiq/backends/stabilizer/functions/stabilizer.py', 'graphiq/backends/stabilizer/tableau.py', 'graphiq/backends/stabilizer/clifford_tableau.py'])
